@@ -53,19 +53,27 @@ Record new_options := mkOpts {
   o_slla : bytes;        (* SourceLLA.MAC, [] = nil *)
   o_tlla : bytes;
   o_dnssl : dnssl;
-  o_ri : route_info
+  o_ri : route_info;
+  (* every well-formed option of the kind, in packet order (fields added by the repair of the
+     findings ri-multiple / rdnss-multiple / dnssl-multiple; the single fields keep their meaning) *)
+  o_routes : list route_info;
+  o_rdnss_all : list rdnss;
+  o_dnssl_all : list dnssl
 }.
 
 Definition ri_zero := mkRI 0 0 0 false [].
-Definition opts_zero := mkOpts 0 [] (mkRD 0 []) [] [] (mkDS 0 []) ri_zero.
+Definition opts_zero := mkOpts 0 [] (mkRD 0 []) [] [] (mkDS 0 []) ri_zero [] [] [].
 
-Definition set_mtu o v := mkOpts v (o_prefixes o) (o_rdnss o) (o_slla o) (o_tlla o) (o_dnssl o) (o_ri o).
-Definition add_prefix o p := mkOpts (o_mtu o) (o_prefixes o ++ [p]) (o_rdnss o) (o_slla o) (o_tlla o) (o_dnssl o) (o_ri o).
-Definition set_rdnss o v := mkOpts (o_mtu o) (o_prefixes o) v (o_slla o) (o_tlla o) (o_dnssl o) (o_ri o).
-Definition set_slla o v := mkOpts (o_mtu o) (o_prefixes o) (o_rdnss o) v (o_tlla o) (o_dnssl o) (o_ri o).
-Definition set_tlla o v := mkOpts (o_mtu o) (o_prefixes o) (o_rdnss o) (o_slla o) v (o_dnssl o) (o_ri o).
-Definition set_dnssl o v := mkOpts (o_mtu o) (o_prefixes o) (o_rdnss o) (o_slla o) (o_tlla o) v (o_ri o).
-Definition set_ri o v := mkOpts (o_mtu o) (o_prefixes o) (o_rdnss o) (o_slla o) (o_tlla o) (o_dnssl o) v.
+Definition set_mtu o v := mkOpts v (o_prefixes o) (o_rdnss o) (o_slla o) (o_tlla o) (o_dnssl o) (o_ri o) (o_routes o) (o_rdnss_all o) (o_dnssl_all o).
+Definition add_prefix o p := mkOpts (o_mtu o) (o_prefixes o ++ [p]) (o_rdnss o) (o_slla o) (o_tlla o) (o_dnssl o) (o_ri o) (o_routes o) (o_rdnss_all o) (o_dnssl_all o).
+Definition set_rdnss o v := mkOpts (o_mtu o) (o_prefixes o) v (o_slla o) (o_tlla o) (o_dnssl o) (o_ri o) (o_routes o) (o_rdnss_all o) (o_dnssl_all o).
+Definition set_slla o v := mkOpts (o_mtu o) (o_prefixes o) (o_rdnss o) v (o_tlla o) (o_dnssl o) (o_ri o) (o_routes o) (o_rdnss_all o) (o_dnssl_all o).
+Definition set_tlla o v := mkOpts (o_mtu o) (o_prefixes o) (o_rdnss o) (o_slla o) v (o_dnssl o) (o_ri o) (o_routes o) (o_rdnss_all o) (o_dnssl_all o).
+Definition set_dnssl o v := mkOpts (o_mtu o) (o_prefixes o) (o_rdnss o) (o_slla o) (o_tlla o) v (o_ri o) (o_routes o) (o_rdnss_all o) (o_dnssl_all o).
+Definition set_ri o v := mkOpts (o_mtu o) (o_prefixes o) (o_rdnss o) (o_slla o) (o_tlla o) (o_dnssl o) v (o_routes o) (o_rdnss_all o) (o_dnssl_all o).
+Definition add_route o v := mkOpts (o_mtu o) (o_prefixes o) (o_rdnss o) (o_slla o) (o_tlla o) (o_dnssl o) (o_ri o) (o_routes o ++ [v]) (o_rdnss_all o) (o_dnssl_all o).
+Definition add_rdnss o v := mkOpts (o_mtu o) (o_prefixes o) (o_rdnss o) (o_slla o) (o_tlla o) (o_dnssl o) (o_ri o) (o_routes o) (o_rdnss_all o ++ [v]) (o_dnssl_all o).
+Definition add_dnssl o v := mkOpts (o_mtu o) (o_prefixes o) (o_rdnss o) (o_slla o) (o_tlla o) (o_dnssl o) (o_ri o) (o_routes o) (o_rdnss_all o) (o_dnssl_all o ++ [v]).
 
 (* ---------------------------------------------------------------- *)
 (* LinkLayerAddress.unmarshal(b):  b[1] != 1 -> error ; MAC = CopyMAC(b[2:]) *)
@@ -221,9 +229,18 @@ Definition opt_step (o : new_options) (t : N) (ob : bytes) : res new_options :=
     match mtu_unmarshal ob with
     | Ok v => Ok (set_mtu o v) | Err _ => Ok o | Panic => Panic | Fuel => Fuel end
   else if t =? 3 then (p <- pi_unmarshal ob ;; Ok (add_prefix o p))%res
-  else if t =? 24 then ('(r, _) <- ri_unmarshal (o_ri o) ob ;; Ok (set_ri o r))%res
-  else if t =? 25 then ('(r, _) <- rd_unmarshal (o_rdnss o) ob ;; Ok (set_rdnss o r))%res
-  else if t =? 31 then ('(r, _) <- ds_unmarshal (o_dnssl o) ob ;; Ok (set_dnssl o r))%res
+  else if t =? 24 then
+    ('(r, ok) <- ri_unmarshal (o_ri o) ob ;;
+     Ok (if ok then add_route (set_ri o r) r else set_ri o r))%res
+  else if t =? 25 then
+    (* n := len(options.RDNSS.Servers); ...; RDNSSList += {Lifetime, Servers[n:]} *)
+    ('(r, ok) <- rd_unmarshal (o_rdnss o) ob ;;
+     Ok (if ok then add_rdnss (set_rdnss o r)
+                      (mkRD (rd_life r) (skipn (List.length (rd_servers (o_rdnss o))) (rd_servers r)))
+         else set_rdnss o r))%res
+  else if t =? 31 then
+    ('(r, ok) <- ds_unmarshal (o_dnssl o) ob ;;
+     Ok (if ok then add_dnssl (set_dnssl o r) r else set_dnssl o r))%res
   else Ok o.
 
 Fixpoint parse_opts (fuel : nat) (b : bytes) (o : new_options) : res new_options :=
